@@ -43,8 +43,13 @@ pub trait ExtractAttribute {
         let will_fwd_any = self.forward_attrs().will_forward_any();
 
         if !(will_parse_any || will_fwd_any) {
+            // Nothing will be read from the attributes, but a forwarded-attrs field (e.g. with
+            // an empty `forward_attrs()` list) still has to be given its (empty) value.
+            let fwd_population = self.forward_attrs().as_value_populator();
+
             return quote! {
                 #declarations
+                #fwd_population
             };
         }
 
